@@ -23,8 +23,8 @@
 (* The program runs at top level or as the body of a macro (the base binding *)
 (* of a name can then be a macro parameter: "with inside macro").            *)
 (* Values are tokens [k, i, n]; a visible value is a *set* of admissible     *)
-(* tokens, a singleton except where the docs do not fix the result:          *)
-(*   - `{% with x: 1, y: x %}`: whether y reads the outer or the new x       *)
+(* tokens (`{% with x: 1, y: x %}`: y reads the OUTER x - the keyword         *)
+(* arguments are visible only inside the block)                              *)
 EXTENDS Naturals, Sequences, FiniteSets, TLC, Json
 
 CONSTANTS MaxWith,       \* with tags per program
@@ -74,14 +74,13 @@ VisibleIn(st, lc, n) ==
      ELSE {BaseValue(base, n)}
 Visible(n) == VisibleIn(stack, locals, n)
 
-(* the value a with tag gives name n: arguments are evaluated in the scope *before* the tag; *)
-(* if the tag also binds the referenced name, reading the new binding is admissible too      *)
+(* the value a with tag gives name n: arguments are evaluated in the scope *before* the tag *)
 New1(b, m, k) == CASE b[m] = "lit" -> {Tok("W", k, m)}
                    [] b[m] = "absent" -> {}
                    [] OTHER -> Visible(b[m])
 ArgValue(b, n, k) ==
   IF b[n] = "lit" THEN {Tok("W", k, n)}
-  ELSE LET m == b[n] IN Visible(m) \cup (IF m # n THEN New1(b, m, k) ELSE {})
+  ELSE Visible(b[n])      \* "visible only inside its block": the argument list is not inside the block, so it reads the enclosing scope
 
 Probe(st, lc) == [n \in Names |-> VisibleIn(st, lc, n)]
 
@@ -152,12 +151,7 @@ LexVisible(p, n) ==
               k == WithNumber(p, pos)
               before == SubSeq(p, 1, pos - 1)
           IN IF b[n] = "lit" THEN {Tok("W", k, n)}
-             ELSE LET m == b[n]
-                  IN LexVisible(before, m)
-                     \cup (IF m = n THEN {}
-                           ELSE CASE b[m] = "lit" -> {Tok("W", k, m)}
-                                  [] b[m] = "absent" -> {}
-                                  [] OTHER -> LexVisible(before, b[m]))
+             ELSE LexVisible(before, b[n])        \* an argument expression means what it meant before the tag
 
 OpenNumbers == {WithNumber(prog, OpenWiths(prog)[d]) : d \in 1..Len(OpenWiths(prog))}
 BoundByOpenWith(n) == \E d \in 1..Len(OpenWiths(prog)) : prog[OpenWiths(prog)[d]].binds[n] # "absent"
